@@ -420,6 +420,7 @@ class VirtualClock:
         self.now = 0
         self.reads = 0
         self.log = []
+        self.tick = 1.0       # length of one tick in "seconds" (expiry behaviour must not depend on the unit)
 
     def __call__(self):
         self.reads += 1
@@ -429,7 +430,7 @@ class VirtualClock:
         except Exception:  # noqa: BLE001
             caller = "?"
         self.log.append(caller)
-        return float(self.now)
+        return float(self.now) * self.tick
 
 
 @contextmanager
@@ -451,7 +452,29 @@ def fresh_scorer(kind, seed=0):
         return DummyScorer()
     if kind == "random":
         return RandomScorer(Random(seed))
+    if kind == "other":
+        return other_nb_scorer()
     raise ValueError(kind)
+
+
+_OTHER_NB = None
+
+
+def other_nb_scorer():
+    """A second naive-Bayes model over the same rule-trace tokens as the shipped one, trained by the harness
+    (deterministic: the same model in every process).  Two models in one process is what exposes state that is shared
+    between scorers (memo tables keyed by the rule sequence only)."""
+    global _OTHER_NB
+    if _OTHER_NB is None:
+        from ctparse.nb_scorer import NaiveBayesScorer, train_naive_bayes
+        from random import Random
+        rnd = Random(5)
+        names = list(RULES) + [str(i) for i in sorted(REGEX)]
+        X = [[rnd.choice(names) for _ in range(rnd.randint(1, 7))] for _ in range(60)]
+        y = [rnd.random() < 0.5 for _ in X]
+        y[0], y[1] = True, False
+        _OTHER_NB = NaiveBayesScorer(train_naive_bayes(X, y))
+    return _OTHER_NB
 
 
 def mk_ts(y, m, d, H=12, M=43, S=0, us=0):
